@@ -131,7 +131,7 @@ theorem seqStep_tag (rec : Rec) (hrec : RecTag Exp rec) (ev : Ev) (k : BinKind) 
     stop-related fields are replaced), so the query answer is unchanged -/
 
 @[simp] theorem markSrc_env (st : BinSt) (c : Bool) : (markSrc st c).env = st.env := by cases c <;> simp [markSrc]
-@[simp] theorem waRec_env (st : BinSt) (isA : Bool) (r : Option Outcome) : (waRec st isA r).1.env = st.env := by
+@[simp] theorem waRec_env (any : Bool) (st : BinSt) (isA : Bool) (r : Option Outcome) : (waRec any st isA r).1.env = st.env := by
   cases r <;> simp [waRec]
 @[simp] theorem setRa_env (st : BinSt) (r : Option Outcome) : (setRa st r).env = st.env := by cases r <;> simp [setRa]
 @[simp] theorem setRb_env (st : BinSt) (r : Option Outcome) : (setRb st r).env = st.env := by cases r <;> simp [setRb]
@@ -143,22 +143,22 @@ structure Pair (a b : Op) (st : BinSt) (outs : List Out) (t : Nat) : Prop where
   henv : st.env.tag = t
   houts : OutsOk Exp outs
 
-theorem waAfterChild_tag (rec : Rec) (hrec : RecTag Exp rec) (isA : Bool) (a b : Op) (st : BinSt)
+theorem waAfterChild_tag (rec : Rec) (hrec : RecTag Exp rec) (any : Bool) (isA : Bool) (a b : Op) (st : BinSt)
     (r : Option Outcome) (t : Nat) (ha : TagInv Exp a t) (hb : TagInv Exp b t) (henv : st.env.tag = t) :
-    Pair Exp (waAfterChild rec isA a b st r).1 (waAfterChild rec isA a b st r).2.1
-      (waAfterChild rec isA a b st r).2.2.1 (waAfterChild rec isA a b st r).2.2.2 t := by
+    Pair Exp (waAfterChild rec any isA a b st r).1 (waAfterChild rec any isA a b st r).2.1
+      (waAfterChild rec any isA a b st r).2.2.1 (waAfterChild rec any isA a b st r).2.2.2 t := by
   cases r with
   | none => exact ⟨ha, hb, henv, outsOk_nil Exp⟩
   | some o =>
     cases isA with
     | true =>
       simp only [waAfterChild, if_true]
-      have := recIf_tag Exp rec hrec ((waRecord st true o).2 && (markSrc (waRecord st true o).1 (waRecord st true o).2).rb.isNone)
+      have := recIf_tag Exp rec hrec ((waRecord any st true o).2 && (markSrc (waRecord any st true o).1 (waRecord any st true o).2).rb.isNone)
         .stop b t hb (by intro e he; cases he)
       exact ⟨ha, this.1, by simpa using henv, this.2⟩
     | false =>
       simp only [waAfterChild, Bool.false_eq_true, if_false]
-      have := recIf_tag Exp rec hrec ((waRecord st false o).2 && (markSrc (waRecord st false o).1 (waRecord st false o).2).ra.isNone)
+      have := recIf_tag Exp rec hrec ((waRecord any st false o).2 && (markSrc (waRecord any st false o).1 (waRecord any st false o).2).ra.isNone)
         .stop a t ha (by intro e he; cases he)
       exact ⟨this.1, hb, by simpa using henv, this.2⟩
 
@@ -179,9 +179,9 @@ theorem swAfterChild_tag (rec : Rec) (hrec : RecTag Exp rec) (isA : Bool) (a b :
       have := recIf_tag Exp rec hrec (!st.src && st.ra.isNone) .stop a t ha (by intro e he; cases he)
       exact ⟨this.1, hb, by simpa using henv, this.2⟩
 
-theorem waFinish_tag (a b : Op) (st : BinSt) (outs : List Out) (t : Nat)
+theorem waFinish_tag (k : BinKind) (a b : Op) (st : BinSt) (outs : List Out) (t : Nat)
     (ha : TagInv Exp a t) (hb : TagInv Exp b t) (henv : st.env.tag = t) (houts : OutsOk Exp outs) :
-    TagInv Exp (waFinish a b st outs).1 t ∧ OutsOk Exp (waFinish a b st outs).2.1 := by
+    TagInv Exp (waFinish k a b st outs).1 t ∧ OutsOk Exp (waFinish k a b st outs).2.1 := by
   unfold waFinish
   split <;> exact ⟨⟨ha, hb, fun _ => henv⟩, houts⟩
 
@@ -191,9 +191,9 @@ theorem swFinish_tag (a b : Op) (st : BinSt) (outs : List Out) (t : Nat)
   unfold swFinish
   split <;> exact ⟨⟨ha, hb, fun _ => henv⟩, houts⟩
 
-theorem waStep_tag (rec : Rec) (hrec : RecTag Exp rec) (ev : Ev) (a b : Op) (st : BinSt) (t : Nat)
-    (h : TagInv Exp (.bin .whenAll a b st) t) (hev : EvTag ev t) :
-    TagInv Exp (waStep rec ev a b st).1 t ∧ OutsOk Exp (waStep rec ev a b st).2.1 := by
+theorem waStep_tag (rec : Rec) (hrec : RecTag Exp rec) (ev : Ev) (k : BinKind) (a b : Op) (st : BinSt) (t : Nat)
+    (h : TagInv Exp (.bin k a b st) t) (hev : EvTag ev t) :
+    TagInv Exp (waStep rec ev k a b st).1 t ∧ OutsOk Exp (waStep rec ev k a b st).2.1 := by
   obtain ⟨ha, hb, henv⟩ := h
   unfold waStep
   cases hph : st.ph <;> cases ev <;> simp only []
@@ -202,31 +202,31 @@ theorem waStep_tag (rec : Rec) (hrec : RecTag Exp rec) (ev : Ev) (a b : Op) (st 
     unfold waStart
     have hA := hrec.inv (.start { env0 with stopped := env0.stopped, stoppable := true }) a t ha (by intro e he; cases he; exact ht)
     have hB := fun S => hrec.inv (.start { env0 with stopped := S, stoppable := true }) b t hb (by intro e he; cases he; exact ht)
-    refine waFinish_tag Exp _ _ _ _ t ?_ ?_ ?_ ?_
-    · exact (waAfterChild_tag Exp rec hrec false _ _ _ _ t hA.1 (hB _).1 (by simp [ht])).ha
-    · exact (waAfterChild_tag Exp rec hrec false _ _ _ _ t hA.1 (hB _).1 (by simp [ht])).hb
-    · exact (waAfterChild_tag Exp rec hrec false _ _ _ _ t hA.1 (hB _).1 (by simp [ht])).henv
+    refine waFinish_tag Exp k _ _ _ _ t ?_ ?_ ?_ ?_
+    · exact (waAfterChild_tag Exp rec hrec k.isAny false _ _ _ _ t hA.1 (hB _).1 (by simp [ht])).ha
+    · exact (waAfterChild_tag Exp rec hrec k.isAny false _ _ _ _ t hA.1 (hB _).1 (by simp [ht])).hb
+    · exact (waAfterChild_tag Exp rec hrec k.isAny false _ _ _ _ t hA.1 (hB _).1 (by simp [ht])).henv
     · exact outsOk_append Exp (outsOk_append Exp hA.2 (hB _).2)
-        (waAfterChild_tag Exp rec hrec false _ _ _ _ t hA.1 (hB _).1 (by simp [ht])).houts
+        (waAfterChild_tag Exp rec hrec k.isAny false _ _ _ _ t hA.1 (hB _).1 (by simp [ht])).houts
   case running.stop =>
     have he := henv hph
     unfold waStop
     split
     · exact ⟨⟨ha, hb, fun _ => by simpa [Env.stop] using he⟩, outsOk_nil Exp⟩
     · have hA := recIf_tag Exp rec hrec st.ra.isNone .stop a t ha (by intro e he'; cases he')
-      have hB := recIf_tag Exp rec hrec (waRec { st with env := st.env.stop, src := true } true (recIf rec st.ra.isNone Ev.stop a).2.2).1.rb.isNone
+      have hB := recIf_tag Exp rec hrec (waRec k.isAny { st with env := st.env.stop, src := true } true (recIf rec st.ra.isNone Ev.stop a).2.2).1.rb.isNone
         .stop b t hb (by intro e he'; cases he')
-      apply waFinish_tag Exp _ _ _ _ t hA.1 hB.1 (by simpa [Env.stop] using he)
+      apply waFinish_tag Exp k _ _ _ _ t hA.1 hB.1 (by simpa [Env.stop] using he)
       exact outsOk_append Exp hA.2 hB.2
   case running.complete i o =>
     have he := henv hph
     unfold waComplete
     have hA := hrec.inv (.complete i o) a t ha (by intro e he'; cases he')
-    have hx := waAfterChild_tag Exp rec hrec true _ b st (rec (.complete i o) a).2.2 t hA.1 hb he
+    have hx := waAfterChild_tag Exp rec hrec k.isAny true _ b st (rec (.complete i o) a).2.2 t hA.1 hb he
     have hB := recIf_tag Exp rec hrec (rec (.complete i o) a).2.2.isNone (.complete i o) _ t hx.hb (by intro e he'; cases he')
-    have hy := waAfterChild_tag Exp rec hrec false _ _ _ (recIf rec (rec (.complete i o) a).2.2.isNone (.complete i o)
-      (waAfterChild rec true (rec (.complete i o) a).1 b st (rec (.complete i o) a).2.2).2.1).2.2 t hx.ha hB.1 hx.henv
-    apply waFinish_tag Exp _ _ _ _ t hy.ha hy.hb hy.henv
+    have hy := waAfterChild_tag Exp rec hrec k.isAny false _ _ _ (recIf rec (rec (.complete i o) a).2.2.isNone (.complete i o)
+      (waAfterChild rec k.isAny true (rec (.complete i o) a).1 b st (rec (.complete i o) a).2.2).2.1).2.2 t hx.ha hB.1 hx.henv
+    apply waFinish_tag Exp k _ _ _ _ t hy.ha hy.hb hy.henv
     exact outsOk_append Exp (outsOk_append Exp (outsOk_append Exp hA.2 hx.houts) hB.2) hy.houts
   all_goals exact ⟨⟨ha, hb, henv⟩, outsOk_nil Exp⟩
 
@@ -305,7 +305,8 @@ theorem recTag_deliver : ∀ fuel : Nat, RecTag Exp (deliver specs fuel)
       | bin k a b st =>
         simp only [deliver, binStep]
         split
-        · exact waStep_tag Exp _ ih ev a b st t h hev
+        · exact waStep_tag Exp _ ih ev _ a b st t h hev
+        · exact waStep_tag Exp _ ih ev _ a b st t h hev
         · exact swStep_tag Exp _ ih ev a b st t h hev
         · exact seqStep_tag Exp _ ih ev _ a b st t h hev⟩
 
